@@ -166,7 +166,12 @@ impl Transformation<String> {
   pub fn used_vars(&self) -> &str {
     // NOTE: meta_var in transform always starts with `$`, for now
     let s = self.source();
-    s.strip_prefix("$$$").unwrap_or_else(|| &s[1..])
+    s.strip_prefix("$$$").unwrap_or_else(|| {
+      // skip the sigil; do not slice by byte, the source can be empty or non-ASCII
+      let mut chars = s.chars();
+      chars.next();
+      chars.as_str()
+    })
   }
 }
 impl Transformation<MetaVariable> {
